@@ -28,15 +28,26 @@ AsmOf(r) == IF r.isa = "thumb" THEN AsmT(r.mn, r.ops, r.sym, r.pc) ELSE AsmA(r.m
 \* ---- C08: whatever ppci accepts and emits decodes to the operation and operands it prints
 IsEnc == idx > 0 /\ Recs[idx].t = "enc"
 \* not a verdict (reported as a note): the printed line is outside the modelled assembly syntax
-SyntaxKnown == IsEnc => AsmOf(Recs[idx]) # NoAsm
+SyntaxKnown == (IsEnc /\ Recs[idx].mn # "invalid") => AsmOf(Recs[idx]) # NoAsm
+\* spec validation only (text = the reference disassembler's output; "invalid" = it rejects the bytes)
+RefInvalid == (IsEnc /\ Recs[idx].mn = "invalid") => ~Valid(Dec(Recs[idx], Recs[idx].out.bytes))
+\* (no verdict where the architecture leaves the emitted encoding UNPREDICTABLE, e.g. "blx pc": note only)
+Predictable == (IsEnc /\ Recs[idx].out.ok) => Dec(Recs[idx], Recs[idx].out.bytes).mn # "unpredictable"
 EncodingAgrees == (IsEnc /\ Recs[idx].out.ok) =>
-    \E a \in {AsmOf(Recs[idx])} : a # NoAsm => Core(Dec(Recs[idx], Recs[idx].out.bytes)) = Core(a)
+    \E a \in {AsmOf(Recs[idx])} : \E d \in {Dec(Recs[idx], Recs[idx].out.bytes)} :
+        (a # NoAsm /\ d.mn # "unpredictable") => Core(d) = Core(a)
+RefAgrees == (IsEnc /\ Recs[idx].out.ok) =>
+    \E a \in {AsmOf(Recs[idx])} : \E d \in {Dec(Recs[idx], Recs[idx].out.bytes)} :
+        (a # NoAsm /\ d.mn \notin {"unpredictable", "unsupported"}) => Core(d) = Core(a)
 
 \* ---- C07: the registers the emitted instruction reads / writes are declared
 IsRw == idx > 0 /\ Recs[idx].t = "rw"
+\* (note only: bytes outside the model or UNPREDICTABLE have no register sets to compare)
 Decodable == IsRw => Valid(Dec(Recs[idx], Recs[idx].bytes))
 StaticWrites == IsRw => \E d \in {Dec(Recs[idx], Recs[idx].bytes)} :
-    Valid(d) => (Writes(d) \ ImplicitW(d)) \subseteq (SetOf(Recs[idx].defs) \cup SetOf(Recs[idx].clob))
+    Valid(d) => (Writes(d) \ (ImplicitW(d) \cup LinkW(d))) \subseteq (SetOf(Recs[idx].defs) \cup SetOf(Recs[idx].clob))
+LinkWrite == IsRw => \E d \in {Dec(Recs[idx], Recs[idx].bytes)} :
+    Valid(d) => LinkW(d) \subseteq (SetOf(Recs[idx].defs) \cup SetOf(Recs[idx].clob))
 StaticReads == IsRw => \E d \in {Dec(Recs[idx], Recs[idx].bytes)} :
     Valid(d) => (Reads(d) \ ImplicitR(d)) \subseteq SetOf(Recs[idx].uses)
 =============================================================================
